@@ -384,10 +384,22 @@ def r11_3(ctx, counts) -> RuleResult:
     return res
 
 
+def _clones(ctx, counts) -> RuleResult:
+    """the 400/100/4-year cycle arithmetic of todelta/fromdelta and the date/time sibling
+    classes are written as cloned blocks: the clones must be consistent"""
+    from .clones import clone_rule
+    r = clone_rule(ctx, 'R11.4', lambda f: f.module.name in (
+        'elementpath.datatypes.datetime', 'elementpath.helpers'), counts)
+    if len(r.instances) < 3:
+        raise AnalysisError(f'R11.4: only {len(r.instances)} clone pairs located in datetime.py')
+    return r
+
+
 def run(ctx) -> dict:
     counts: dict[str, int] = {}
     return {
-        'results': [r11_1(ctx, counts), r11_2(ctx, counts), r11_3(ctx, counts)], 'counts': counts,
+        'results': [r11_1(ctx, counts), r11_2(ctx, counts), r11_3(ctx, counts), _clones(ctx, counts)],
+        'counts': counts,
         'explanation':
             'Only the last sentence of C11 is decided ("the component-extraction functions '
             'return the value\'s own components"), in its table-shaped part: each '
